@@ -272,7 +272,17 @@ class World:
             return
         c = lib.call(lambda: self._deriv_at(self._construct(kind, fresh(m), var, early), kind, P, var, bare))
         self.never_used_compared = getattr(self, "never_used_compared", 0) + 1
-        if c.kind == lib.DOM:
+        if c.kind != lib.DOM:
+            return
+        # ... and only where the expression itself has no value: the numeric route of the never-used object can also raise
+        # DomainError because an intermediate of a DERIVATIVE formula underflows (-1/x^2 at x = 2.5e-179: out of the
+        # properties' range clause; sweep seed 84).  The route after as_expression() evaluates the original first, so when
+        # a never-used copy of the expression raises DomainError the used object must raise it too.
+        if d.get("bare"):
+            o = lib.call(lambda: fresh(m).at(next(iter(P.values()), 1.5)))
+        else:
+            o = lib.call(lambda: fresh(m).at(Point(**P)))
+        if o.kind == lib.DOM:
             raise Mismatch("history", f"{op}:number-where-never-used-raises",
                            f"operation {self.describe(d)} on a derivative object whose as_expression() was called earlier gave "
                            f"{a!r} but a never-used {kind} of a never-used copy gives {c!r} (complete point)")
